@@ -14,11 +14,19 @@ AsPairs(m) == {<<m[i].c, m[i].t>> : i \in DOMAIN m}
 Norm(s) == [j \in DOMAIN s |-> [s[j] EXCEPT !.own = ToSetS(@), !.cats = ToSetS(@)]]
 Cfl(r) == IF r.lvl = "member" THEN Conflict(Norm(r.s)) ELSE IF r.lvl = "vfield" THEN VConflict(Norm(r.s)) ELSE TConflict(Norm(r.s))
 Want(r, j) == IF r.lvl = "member" THEN Eff(Norm(r.s), j) ELSE IF r.lvl = "vfield" THEN VEff(Norm(r.s), j) ELSE TEff(Norm(r.s), j)
+\* A sequence without a repeat conflict is judged by EQUIVALENCE with its written-out form, as the property states it: the merged instruction sets must
+\* be those of the unrolling, and the real derive must treat both forms alike -- both accepted with token-identical expansions, or both rejected (the
+\* written-out form can itself break a rule, e.g. two default #[parent] instructions on one member; then so does the repeat form).
+MergedOk(r) == IF r.v1 # "ok" /\ Len(r.merged) = 0 THEN TRUE            \* rejected before the parsed state was recorded
+               ELSE Len(r.merged) = Len(r.s) /\ \A j \in DOMAIN r.s : AsPairs(r.merged[j]) = Want(r, j)
 Symptom(r) ==
   IF Cfl(r) THEN (IF r.v1 = "err" THEN "-" ELSE IF r.v1 = "panic" THEN "conflict_panics" ELSE "conflict_accepted")
+  ELSE IF r.v1 = "panic" THEN "valid_repeat_panics"
+  ELSE IF ~MergedOk(r) THEN "merged_instructions_differ_from_unrolled"
+  ELSE IF r.writable THEN (IF r.v1 = r.v2 /\ (r.v1 = "ok" => r.same) THEN "-"
+                           ELSE IF r.v1 # "ok" /\ r.v2 = "ok" THEN "valid_repeat_rejected"
+                           ELSE "expansion_differs_from_written_out")
   ELSE IF r.v1 # "ok" THEN "valid_repeat_rejected"
-  ELSE IF Len(r.merged) # Len(r.s) \/ \E j \in DOMAIN r.s : AsPairs(r.merged[j]) # Want(r, j) THEN "merged_instructions_differ_from_unrolled"
-  ELSE IF r.writable /\ (r.v2 # "ok" \/ ~r.same) THEN "expansion_differs_from_written_out"
   ELSE "-"
 Init == l = 1
 Consume == /\ l <= Len(Rec)
